@@ -1,11 +1,15 @@
 """library object -> plain reference data, through the public API only.
 Always called in oracle mode (monitoring off)."""
+import zlib
+
 from vf.ref import nfa as rn
 
 
 def fa(a):
     """any finite automaton -> ref NFA over state/symbol *values*"""
     from pyformlang.finite_automaton import Epsilon
+    from vf import core
+    core.LOG.orders.add(zlib.crc32(repr((list(a.states), list(a.symbols))).encode()))
     trans = set()
     for p, s, q in a:
         trans.add((p.value, rn.EPS if isinstance(s, Epsilon) else s.value, q.value))
